@@ -92,6 +92,10 @@ def models(tier):
     ms = [Model("KwikSort", f"MC_KwikSort_{s}_3_2.cfg", f"KwikSort step machine, every pivot schedule of every dataset "
                 f"(3 elements, <=2 rankings), scheme {s}: blocks partition the universe, progress, coherent preferences "
                 f"=> the coherent ranking, identical rankings returned unchanged") for s in ("uni5", "ind1", "odd")]
+    ms.append(Model("KwikCount", "KwikCount_3.cfg" if tier == "quick" else "KwikCount_4.cfg",
+                    "_where_should_it_be transcribed: the six-situation vector derived from five counts over two columns of "
+                    "the positions matrix equals the count of rankings per situation, for every pair of columns; the "
+                    "decision taken from the three costs is Pref"))
     if tier == "thorough":
         ms += [Model("KwikSort", f"MC_KwikSort_{s}_3_3.cfg", f"same, <=3 rankings, scheme {s}")
                for s in ("uni5", "uni1", "pse5", "ext")]
